@@ -47,10 +47,10 @@ Failing(c) ==
                /\ \E p \in 1..L!NPat : L!MatchLen(p, lines[1], 1) # c.plens[p]
             THEN {"matcher-vs-re"} ELSE {})
 
-Detail(c) ==
+Detail(c, f) ==
   LET exp == L!Tokenize(c.text)
       k == FirstDiff(exp.toks, c.toks)
-  IN [id |-> c.id, fam |-> c.fam, clauses |-> Failing(c),
+  IN [id |-> c.id, fam |-> c.fam, clauses |-> f,
       spec_ok |-> exp.ok, impl_ok |-> c.ok,
       first_diff |-> k, spec_tok |-> At(exp.toks, k), impl_tok |-> At(c.toks, k),
       spec_err |-> exp.err, impl_err |-> c.err,
@@ -58,12 +58,15 @@ Detail(c) ==
 
 Init == i = 1 /\ bad = 0
 
+\* 0 if case c is accepted, 1 (and a printed JSON line) otherwise.  Kept as one expression:
+\* TLC caches LET definitions while evaluating expressions, but not at the action level.
+Judge(c) ==
+  LET f == Failing(c)
+  IN IF f = {} THEN 0 ELSE IF PrintT(ToJson(Detail(c, f))) THEN 1 ELSE 1
+
 Step ==
   /\ i <= Len(Cases)
-  /\ LET c == Cases[i]
-         f == Failing(c)
-     IN /\ (f # {} => PrintT(ToJson(Detail(c))))
-        /\ bad' = bad + (IF f = {} THEN 0 ELSE 1)
+  /\ bad' = bad + Judge(Cases[i])
   /\ i' = i + 1
 
 Done ==
